@@ -9,11 +9,13 @@ git apply "$patch" || { echo "patch does not apply"; exit 2; }
 export GOFLAGS=-mod=mod GOPROXY=off GOSUMDB=off
 if ! go build ./... ; then echo "SEED does not compile"; git checkout -- .; exit 2; fi
 cd /verif
+sd=$(dirname "$patch"); log=/dev/null
+case "$sd" in /verif/seeded/*) log="$sd/checks_${TIER:-quick}.log"; : > "$log";; esac
 for c in "$@"; do
   out=$(./check "$c" ${TIER:-quick} 2>&1)
   rc=$?
   v=$(echo "$out" | grep -c '^VIOLATION')
-  echo "== $c rc=$rc violations=$v"
-  echo "$out" | grep -E "VIOLATION|BROKEN|FAILURE|KNOWN" | cut -c1-300 | head -8
+  { echo "== $c rc=$rc violations=$v"
+  echo "$out" | grep -E "VIOLATION|BROKEN|FAILURE|KNOWN" | cut -c1-300 | head -8; } | tee -a "$log"
 done
 cd /repo && git checkout -- . && git status --short | head -3
